@@ -129,7 +129,8 @@ class EnvSim(Engine):
     nruns = {"quick": 5000, "thorough": 400000}
     budgets = {"quick": 45.0, "thorough": 540.0}
     rule = (
-        "script = contingent problem (optionally an earlier capped environment on the same problem; optionally a user function of a "
+        "script = contingent problem (optionally an earlier capped environment on the same problem; optionally a SECOND live environment "
+        "in another hidden world, the steps alternating between the two; optionally a user function of a "
         "parameter in preconditions that raises inside 1-3 steps; 3-6 hidden Boolean ground fluents under unknown / oneof / or constraints, some with a default or "
         "an explicit value the drawn state must override; refused re-declarations of fluents with other defaults; "
         "non-hidden Boolean, bounded-int and object-valued fluents whose initial value is explicit, a per-fluent default "
